@@ -1139,7 +1139,7 @@ func (cs c18SibCase) faulted(f c18Sib) bool {
 }
 
 func (c *Ctx) c18Siblings() {
-	n := c.N(200, 3000)
+	n := c.N(150, 3000)
 	scratch := filepath.Join(c.WorkDir, "render")
 	canDrop := true
 	probe := c.c18Exec(c18Run{Dir: filepath.Join(c.WorkDir, "siblings-probe"), Files: map[string][]byte{"x.knut": []byte("")}, Modes: map[string]os.FileMode{"x.knut": 0o644},
